@@ -148,9 +148,21 @@ fn all_cells() -> Vec<Cell> {
         for dst in DSTS {
             for cl in [Cl::None, Cl::Default, Cl::Explicit] {
                 for confed in [false, true] {
-                    v.push(Cell { src, dst, cl, confed, echo: false });
+                    v.push(Cell {
+                        src,
+                        dst,
+                        cl,
+                        confed,
+                        echo: false,
+                    });
                     if src.is_peer() {
-                        v.push(Cell { src, dst, cl, confed, echo: true });
+                        v.push(Cell {
+                            src,
+                            dst,
+                            cl,
+                            confed,
+                            echo: true,
+                        });
                     }
                 }
             }
@@ -212,10 +224,18 @@ fn path_segments(shape: u8) -> Option<Vec<(u8, Vec<u32>)>> {
         2 => vec![(SEG_SEQ, vec![64600, 64601])],
         3 => vec![(SEG_SET, vec![64610, 64611])],
         4 => vec![(SEG_CSEQ, vec![65011, 65012]), (SEG_SEQ, vec![64600])],
-        5 => vec![(SEG_CSET, vec![65013]), (SEG_CSEQ, vec![65012]), (SEG_SEQ, vec![64600, 64601])],
+        5 => vec![
+            (SEG_CSET, vec![65013]),
+            (SEG_CSEQ, vec![65012]),
+            (SEG_SEQ, vec![64600, 64601]),
+        ],
         6 => vec![(SEG_SEQ, full255(70000))],
         7 => vec![(SEG_CSEQ, full255(80000)), (SEG_SEQ, vec![64600])],
-        8 => vec![(SEG_SEQ, vec![64600]), (SEG_SET, vec![64610, 64611]), (SEG_SEQ, vec![64602])],
+        8 => vec![
+            (SEG_SEQ, vec![64600]),
+            (SEG_SET, vec![64610, 64611]),
+            (SEG_SEQ, vec![64602]),
+        ],
         9 => vec![(SEG_CSEQ, vec![65011])],
         10 => vec![(SEG_SEQ, full255(70000)), (SEG_SEQ, vec![64600])],
         _ => vec![(SEG_SEQ, vec![64600]), (SEG_CSEQ, vec![65011])],
@@ -312,10 +332,18 @@ fn build_attrs(s: &Spec) -> Vec<packet::Attribute> {
         v.push(A::new_with_bin(A::AIGP, AIGP_BIN.to_vec()).unwrap());
     }
     if s.opq_t != 0 {
-        v.push(A::new_opaque(OPQ_T_CODE, opq_t_flags(s.opq_t), OPQ_T_DATA.to_vec()));
+        v.push(A::new_opaque(
+            OPQ_T_CODE,
+            opq_t_flags(s.opq_t),
+            OPQ_T_DATA.to_vec(),
+        ));
     }
     if s.opq_nt != 0 {
-        v.push(A::new_opaque(OPQ_NT_CODE, opq_nt_flags(s.opq_nt), OPQ_NT_DATA.to_vec()));
+        v.push(A::new_opaque(
+            OPQ_NT_CODE,
+            opq_nt_flags(s.opq_nt),
+            OPQ_NT_DATA.to_vec(),
+        ));
     }
     if s.reversed {
         v.reverse();
@@ -360,7 +388,11 @@ fn make_env(cell: &Cell, s: &Spec) -> Env {
             family: Family::IPV6,
             net: "2001:db8:1::/48".parse().unwrap(),
             local_addr: "2001:db8::1".parse().unwrap(),
-            link_addr: if s.link_local { Some("fe80::1".parse().unwrap()) } else { None },
+            link_addr: if s.link_local {
+                Some("fe80::1".parse().unwrap())
+            } else {
+                None
+            },
             src_addr,
             recv_addr: if cell.echo { src_addr } else { other },
             decoy_addr: "2001:db8::9".parse().unwrap(),
@@ -436,7 +468,8 @@ fn build_assignment(actions: table::Actions) -> Arc<table::PolicyAssignment> {
     let mut pt = table::PolicyTable::new();
     pt.add_statement("s", vec![], Some(table::Disposition::Accept), actions)
         .expect("add_statement");
-    pt.add_policy("p", vec!["s".to_string()]).expect("add_policy");
+    pt.add_policy("p", vec!["s".to_string()])
+        .expect("add_policy");
     pt.build_assignment(
         None,
         "a",
@@ -642,7 +675,11 @@ fn expected_export(cell: &Cell, s: &Spec, env: &Env) -> Expected {
     if s.llgr && cell.src.is_peer() {
         comm.insert(LLGR_STALE);
     }
-    let communities = if comm.is_empty() { Exp::Absent } else { Exp::Is(comm) };
+    let communities = if comm.is_empty() {
+        Exp::Absent
+    } else {
+        Exp::Is(comm)
+    };
     let pass_u32 = |v: Option<u32>| match v {
         Some(x) => Exp::Is(x),
         None => Exp::Absent,
@@ -681,9 +718,12 @@ fn expected_export(cell: &Cell, s: &Spec, env: &Env) -> Expected {
         PeerRole::Ebgp => {
             let prepend = if cell.confed { CONFED_ID } else { LOCAL_AS };
             let mut items = vec![Item::Hop(SEG_SEQ, prepend)];
-            items.extend(in_items.iter().filter(|i| {
-                !matches!(i, Item::Hop(SEG_CSEQ, _) | Item::Set(SEG_CSET, _))
-            }).cloned());
+            items.extend(
+                in_items
+                    .iter()
+                    .filter(|i| !matches!(i, Item::Hop(SEG_CSEQ, _) | Item::Set(SEG_CSET, _)))
+                    .cloned(),
+            );
             e.path = Exp::Is(items);
             e.local_pref = Exp::Absent;
             e.originator = Exp::Absent;
@@ -722,8 +762,16 @@ fn expected_export(cell: &Cell, s: &Spec, env: &Env) -> Expected {
                 Some(v) => Exp::Is(v),
                 None => Exp::Present,
             };
-            e.med = if med_policy { Exp::Any } else { pass_u32(s.med) };
-            e.aigp = if s.aigp { Exp::Is(AIGP_BIN.to_vec()) } else { Exp::Absent };
+            e.med = if med_policy {
+                Exp::Any
+            } else {
+                pass_u32(s.med)
+            };
+            e.aigp = if s.aigp {
+                Exp::Is(AIGP_BIN.to_vec())
+            } else {
+                Exp::Absent
+            };
             if cell.src.is_ibgp() {
                 match cell.cl.id() {
                     Some(cid) => {
@@ -738,8 +786,16 @@ fn expected_export(cell: &Cell, s: &Spec, env: &Env) -> Expected {
             } else {
                 // not a reflected route: nothing says it gains these; an attribute the
                 // route already carried is not judged
-                e.originator = if s.originator.is_some() { Exp::Any } else { Exp::Absent };
-                e.cluster_list = if s.cluster.is_empty() { Exp::Absent } else { Exp::Any };
+                e.originator = if s.originator.is_some() {
+                    Exp::Any
+                } else {
+                    Exp::Absent
+                };
+                e.cluster_list = if s.cluster.is_empty() {
+                    Exp::Absent
+                } else {
+                    Exp::Any
+                };
             }
             e.nexthop = match policy_nh {
                 Some(p) => p,
@@ -783,7 +839,13 @@ fn expected_export(cell: &Cell, s: &Spec, env: &Env) -> Expected {
 
 #[derive(Default)]
 struct Rec {
-    reach: Vec<(u32, u32, Option<bgp::Nexthop>, Arc<Vec<packet::Attribute>>, Arc<table::Source>)>,
+    reach: Vec<(
+        u32,
+        u32,
+        Option<bgp::Nexthop>,
+        Arc<Vec<packet::Attribute>>,
+        Arc<table::Source>,
+    )>,
     unreach: Vec<(u32, u32)>,
 }
 
@@ -797,7 +859,8 @@ impl NlriSink for Rec {
         attr: Arc<Vec<packet::Attribute>>,
         source: &Arc<table::Source>,
     ) {
-        self.reach.push((dest_id, path_id, nexthop, attr, Arc::clone(source)));
+        self.reach
+            .push((dest_id, path_id, nexthop, attr, Arc::clone(source)));
     }
     fn unreach(&mut self, dest_id: u32, _nlri: packet::Nlri, path_id: u32) {
         self.unreach.push((dest_id, path_id));
@@ -827,12 +890,21 @@ fn attrs_json(attrs: &[packet::Attribute]) -> Json {
         let val = match (a.value(), a.binary()) {
             (Some(v), _) => format!("{}", v),
             (None, Some(b)) if b.len() > 64 => {
-                format!("{}… ({} bytes)", crate::verif_common::hex(&b[..64]), b.len())
+                format!(
+                    "{}… ({} bytes)",
+                    crate::verif_common::hex(&b[..64]),
+                    b.len()
+                )
             }
             (None, Some(b)) => crate::verif_common::hex(b),
             _ => "?".into(),
         };
-        Json::s(format!("{} flags={:#04x} {}", code_name(a.code()), a.flags(), val))
+        Json::s(format!(
+            "{} flags={:#04x} {}",
+            code_name(a.code()),
+            a.flags(),
+            val
+        ))
     }))
 }
 
@@ -856,11 +928,17 @@ fn check_u32(
     match (exp, got) {
         (Exp::Any, _) => {}
         (Exp::Absent, None) => {}
-        (Exp::Absent, Some(_)) => out.push((clause_absent, name.clone(), format!("{} must not be sent", name))),
+        (Exp::Absent, Some(_)) => out.push((
+            clause_absent,
+            name.clone(),
+            format!("{} must not be sent", name),
+        )),
         (Exp::Present, Some(_)) => {}
-        (Exp::Present, None) | (Exp::Is(_), None) => {
-            out.push((clause_other, format!("{}-missing", name), format!("{} is missing", name)))
-        }
+        (Exp::Present, None) | (Exp::Is(_), None) => out.push((
+            clause_other,
+            format!("{}-missing", name),
+            format!("{} is missing", name),
+        )),
         (Exp::Is(v), Some(g)) => {
             if g != Some(*v) {
                 out.push((
@@ -873,7 +951,13 @@ fn check_u32(
     }
 }
 
-fn judge(cell: &Cell, s: &Spec, e: &ExpSend, nh: Option<bgp::Nexthop>, attrs: &[packet::Attribute]) -> Vec<Finding> {
+fn judge(
+    cell: &Cell,
+    s: &Spec,
+    e: &ExpSend,
+    nh: Option<bgp::Nexthop>,
+    attrs: &[packet::Attribute],
+) -> Vec<Finding> {
     use packet::Attribute as A;
     let mut out: Vec<Finding> = Vec::new();
 
@@ -884,7 +968,11 @@ fn judge(cell: &Cell, s: &Spec, e: &ExpSend, nh: Option<bgp::Nexthop>, attrs: &[
     }
     for (c, n) in &seen {
         if *n > 1 {
-            out.push(("other-attrs", format!("dup-{}", code_name(*c)), format!("{} appears {} times", code_name(*c), n)));
+            out.push((
+                "other-attrs",
+                format!("dup-{}", code_name(*c)),
+                format!("{} appears {} times", code_name(*c), n),
+            ));
         }
     }
 
@@ -898,7 +986,11 @@ fn judge(cell: &Cell, s: &Spec, e: &ExpSend, nh: Option<bgp::Nexthop>, attrs: &[
             },
         };
         match got {
-            Err(why) => out.push(("aspath", "malformed".into(), format!("AS_PATH sent is malformed: {}", why))),
+            Err(why) => out.push((
+                "aspath",
+                "malformed".into(),
+                format!("AS_PATH sent is malformed: {}", why),
+            )),
             Ok(items) => {
                 if &items != want {
                     let fact = if shape_has_full(s.path) {
@@ -910,18 +1002,55 @@ fn judge(cell: &Cell, s: &Spec, e: &ExpSend, nh: Option<bgp::Nexthop>, attrs: &[
                     };
                     let show = |v: &Vec<Item>| {
                         let n = v.len();
-                        format!("{:?}{}", &v[..n.min(6)], if n > 6 { format!(" … ({} items)", n) } else { String::new() })
+                        format!(
+                            "{:?}{}",
+                            &v[..n.min(6)],
+                            if n > 6 {
+                                format!(" … ({} items)", n)
+                            } else {
+                                String::new()
+                            }
+                        )
                     };
-                    out.push(("aspath", fact.into(), format!("AS_PATH sent {} expected {}", show(&items), show(want))));
+                    out.push((
+                        "aspath",
+                        fact.into(),
+                        format!("AS_PATH sent {} expected {}", show(&items), show(want)),
+                    ));
                 }
             }
         }
     }
 
     let ebgp = cell.dst == PeerRole::Ebgp;
-    check_u32(&mut out, &e.origin, attrs, A::ORIGIN, "other-attrs", "other-attrs");
-    check_u32(&mut out, &e.med, attrs, A::MULTI_EXIT_DESC, if ebgp && s.med.is_some() { "strip" } else { "other-attrs" }, "other-attrs");
-    check_u32(&mut out, &e.local_pref, attrs, A::LOCAL_PREF, "strip", "local-pref");
+    check_u32(
+        &mut out,
+        &e.origin,
+        attrs,
+        A::ORIGIN,
+        "other-attrs",
+        "other-attrs",
+    );
+    check_u32(
+        &mut out,
+        &e.med,
+        attrs,
+        A::MULTI_EXIT_DESC,
+        if ebgp && s.med.is_some() {
+            "strip"
+        } else {
+            "other-attrs"
+        },
+        "other-attrs",
+    );
+    check_u32(
+        &mut out,
+        &e.local_pref,
+        attrs,
+        A::LOCAL_PREF,
+        "strip",
+        "local-pref",
+    );
     // ORIGINATOR_ID
     {
         let got = find1(attrs, A::ORIGINATOR_ID).map(|a| a.value());
@@ -929,37 +1058,86 @@ fn judge(cell: &Cell, s: &Spec, e: &ExpSend, nh: Option<bgp::Nexthop>, attrs: &[
             (Exp::Any, _) | (Exp::Absent, None) | (Exp::Present, Some(_)) => {}
             (Exp::Absent, Some(g)) => {
                 if ebgp {
-                    out.push(("strip", "ORIGINATOR_ID".into(), "ORIGINATOR_ID must not be sent to eBGP".into()));
+                    out.push((
+                        "strip",
+                        "ORIGINATOR_ID".into(),
+                        "ORIGINATOR_ID must not be sent to eBGP".into(),
+                    ));
                 } else {
-                    out.push(("reflect", "originator-on-non-reflected".into(), format!("ORIGINATOR_ID {:?} added to a route that is not reflected", g.map(Ipv4Addr::from))));
+                    out.push((
+                        "reflect",
+                        "originator-on-non-reflected".into(),
+                        format!(
+                            "ORIGINATOR_ID {:?} added to a route that is not reflected",
+                            g.map(Ipv4Addr::from)
+                        ),
+                    ));
                 }
             }
-            (Exp::Present, None) | (Exp::Is(_), None) => out.push(("reflect", "originator-missing".into(), "reflected route has no ORIGINATOR_ID".into())),
+            (Exp::Present, None) | (Exp::Is(_), None) => out.push((
+                "reflect",
+                "originator-missing".into(),
+                "reflected route has no ORIGINATOR_ID".into(),
+            )),
             (Exp::Is(v), Some(g)) => {
                 if g != Some(*v) {
-                    let fact = if s.originator.is_some() { "originator-overwritten" } else { "originator-wrong" };
-                    out.push(("reflect", fact.into(), format!("ORIGINATOR_ID is {:?}, expected {}", g.map(Ipv4Addr::from), Ipv4Addr::from(*v))));
+                    let fact = if s.originator.is_some() {
+                        "originator-overwritten"
+                    } else {
+                        "originator-wrong"
+                    };
+                    out.push((
+                        "reflect",
+                        fact.into(),
+                        format!(
+                            "ORIGINATOR_ID is {:?}, expected {}",
+                            g.map(Ipv4Addr::from),
+                            Ipv4Addr::from(*v)
+                        ),
+                    ));
                 }
             }
         }
     }
     // CLUSTER_LIST
     {
-        let got = find1(attrs, A::CLUSTER_LIST).map(|a| a.binary().map(|b| bytes_to_u32s(b)).unwrap_or_default());
+        let got = find1(attrs, A::CLUSTER_LIST)
+            .map(|a| a.binary().map(|b| bytes_to_u32s(b)).unwrap_or_default());
         match (&e.cluster_list, got) {
             (Exp::Any, _) | (Exp::Absent, None) | (Exp::Present, Some(_)) => {}
             (Exp::Absent, Some(_)) => {
                 if ebgp {
-                    out.push(("strip", "CLUSTER_LIST".into(), "CLUSTER_LIST must not be sent to eBGP".into()));
+                    out.push((
+                        "strip",
+                        "CLUSTER_LIST".into(),
+                        "CLUSTER_LIST must not be sent to eBGP".into(),
+                    ));
                 } else {
-                    out.push(("reflect", "cluster-list-on-non-reflected".into(), "CLUSTER_LIST added to a route that is not reflected".into()));
+                    out.push((
+                        "reflect",
+                        "cluster-list-on-non-reflected".into(),
+                        "CLUSTER_LIST added to a route that is not reflected".into(),
+                    ));
                 }
             }
-            (Exp::Present, None) | (Exp::Is(_), None) => out.push(("reflect", "cluster-list-missing".into(), "reflected route has no CLUSTER_LIST".into())),
+            (Exp::Present, None) | (Exp::Is(_), None) => out.push((
+                "reflect",
+                "cluster-list-missing".into(),
+                "reflected route has no CLUSTER_LIST".into(),
+            )),
             (Exp::Is(v), Some(g)) => {
                 if &g != v {
-                    let show = |l: &Vec<u32>| l.iter().map(|x| Ipv4Addr::from(*x).to_string()).collect::<Vec<_>>().join(",");
-                    out.push(("reflect", "cluster-list-wrong".into(), format!("CLUSTER_LIST is [{}], expected [{}]", show(&g), show(v))));
+                    let show = |l: &Vec<u32>| {
+                        l.iter()
+                            .map(|x| Ipv4Addr::from(*x).to_string())
+                            .collect::<Vec<_>>()
+                            .join(",")
+                    };
+                    out.push((
+                        "reflect",
+                        "cluster-list-wrong".into(),
+                        format!("CLUSTER_LIST is [{}], expected [{}]", show(&g), show(v)),
+                    ));
                 }
             }
         }
@@ -969,33 +1147,65 @@ fn judge(cell: &Cell, s: &Spec, e: &ExpSend, nh: Option<bgp::Nexthop>, attrs: &[
         let got = find1(attrs, A::AIGP).map(|a| a.binary().cloned().unwrap_or_default());
         match (&e.aigp, got) {
             (Exp::Any, _) | (Exp::Absent, None) | (Exp::Present, Some(_)) => {}
-            (Exp::Absent, Some(_)) => out.push((if ebgp { "strip" } else { "other-attrs" }, "AIGP".into(), "AIGP must not be sent".into())),
-            (Exp::Present, None) | (Exp::Is(_), None) => out.push(("other-attrs", "AIGP-missing".into(), "AIGP lost".into())),
+            (Exp::Absent, Some(_)) => out.push((
+                if ebgp { "strip" } else { "other-attrs" },
+                "AIGP".into(),
+                "AIGP must not be sent".into(),
+            )),
+            (Exp::Present, None) | (Exp::Is(_), None) => {
+                out.push(("other-attrs", "AIGP-missing".into(), "AIGP lost".into()))
+            }
             (Exp::Is(v), Some(g)) => {
                 if &g != v {
-                    out.push(("other-attrs", "AIGP-changed".into(), "AIGP value changed".into()));
+                    out.push((
+                        "other-attrs",
+                        "AIGP-changed".into(),
+                        "AIGP value changed".into(),
+                    ));
                 }
             }
         }
     }
     // COMMUNITY (as a set) incl. LLGR_STALE
     {
-        let got: Option<BTreeSet<u32>> = find1(attrs, A::COMMUNITY).map(|a| a.binary().map(|b| bytes_to_u32s(b)).unwrap_or_default().into_iter().collect());
+        let got: Option<BTreeSet<u32>> = find1(attrs, A::COMMUNITY).map(|a| {
+            a.binary()
+                .map(|b| bytes_to_u32s(b))
+                .unwrap_or_default()
+                .into_iter()
+                .collect()
+        });
         let llgr_needed = s.llgr && cell.src.is_peer();
         if llgr_needed && !got.as_ref().is_some_and(|g| g.contains(&LLGR_STALE)) {
-            out.push(("llgr", "community-missing".into(), "route of an LLGR-stale source sent without LLGR_STALE".into()));
+            out.push((
+                "llgr",
+                "community-missing".into(),
+                "route of an LLGR-stale source sent without LLGR_STALE".into(),
+            ));
         } else {
             match (&e.communities, got) {
                 (Exp::Any, _) | (Exp::Absent, None) | (Exp::Present, Some(_)) => {}
                 (Exp::Absent, Some(g)) => {
                     if !g.is_empty() {
-                        out.push(("other-attrs", "COMMUNITY-gained".into(), format!("communities {:x?} added", g)));
+                        out.push((
+                            "other-attrs",
+                            "COMMUNITY-gained".into(),
+                            format!("communities {:x?} added", g),
+                        ));
                     }
                 }
-                (Exp::Present, None) | (Exp::Is(_), None) => out.push(("other-attrs", "COMMUNITY-missing".into(), "COMMUNITY lost".into())),
+                (Exp::Present, None) | (Exp::Is(_), None) => out.push((
+                    "other-attrs",
+                    "COMMUNITY-missing".into(),
+                    "COMMUNITY lost".into(),
+                )),
                 (Exp::Is(v), Some(g)) => {
                     if &g != v {
-                        out.push(("other-attrs", "COMMUNITY-changed".into(), format!("communities {:x?}, expected {:x?}", g, v)));
+                        out.push((
+                            "other-attrs",
+                            "COMMUNITY-changed".into(),
+                            format!("communities {:x?}, expected {:x?}", g, v),
+                        ));
                     }
                 }
             }
@@ -1005,27 +1215,62 @@ fn judge(cell: &Cell, s: &Spec, e: &ExpSend, nh: Option<bgp::Nexthop>, attrs: &[
     {
         let t = find1(attrs, OPQ_T_CODE);
         match (e.opaque_t, t) {
-            (true, None) => out.push(("opaque", "transitive-dropped".into(), "unknown optional transitive attribute was not forwarded".into())),
+            (true, None) => out.push((
+                "opaque",
+                "transitive-dropped".into(),
+                "unknown optional transitive attribute was not forwarded".into(),
+            )),
             (true, Some(a)) => {
                 if a.flags() & A::FLAG_PARTIAL == 0 {
                     out.push(("opaque", "partial-not-set".into(), format!("unknown optional transitive attribute forwarded with flags {:#04x} (Partial clear)", a.flags())));
                 }
                 if a.binary().map(|b| b.as_slice()) != Some(&OPQ_T_DATA[..]) {
-                    out.push(("opaque", "data-changed".into(), "unknown transitive attribute value changed".into()));
+                    out.push((
+                        "opaque",
+                        "data-changed".into(),
+                        "unknown transitive attribute value changed".into(),
+                    ));
                 }
             }
-            (false, Some(_)) => out.push(("other-attrs", format!("gained-{}", code_name(OPQ_T_CODE)), "attribute appeared from nowhere".into())),
+            (false, Some(_)) => out.push((
+                "other-attrs",
+                format!("gained-{}", code_name(OPQ_T_CODE)),
+                "attribute appeared from nowhere".into(),
+            )),
             (false, None) => {}
         }
         if find1(attrs, OPQ_NT_CODE).is_some() {
-            out.push(("opaque", "non-transitive-forwarded".into(), "unknown optional non-transitive attribute was forwarded".into()));
+            out.push((
+                "opaque",
+                "non-transitive-forwarded".into(),
+                "unknown optional non-transitive attribute was forwarded".into(),
+            ));
         }
     }
     // nothing else may appear
     for c in seen.keys() {
-        let known = matches!(*c, A::ORIGIN | A::AS_PATH | A::MULTI_EXIT_DESC | A::LOCAL_PREF | A::COMMUNITY | A::ORIGINATOR_ID | A::CLUSTER_LIST | A::AIGP | OPQ_T_CODE | OPQ_NT_CODE);
+        let known = matches!(
+            *c,
+            A::ORIGIN
+                | A::AS_PATH
+                | A::MULTI_EXIT_DESC
+                | A::LOCAL_PREF
+                | A::COMMUNITY
+                | A::ORIGINATOR_ID
+                | A::CLUSTER_LIST
+                | A::AIGP
+                | OPQ_T_CODE
+                | OPQ_NT_CODE
+        );
         if !known {
-            out.push(("other-attrs", format!("gained-{}", code_name(*c)), format!("unexpected attribute {} in the advertisement", code_name(*c))));
+            out.push((
+                "other-attrs",
+                format!("gained-{}", code_name(*c)),
+                format!(
+                    "unexpected attribute {} in the advertisement",
+                    code_name(*c)
+                ),
+            ));
         }
     }
     // next hop
@@ -1034,18 +1279,55 @@ fn judge(cell: &Cell, s: &Spec, e: &ExpSend, nh: Option<bgp::Nexthop>, attrs: &[
         ExpNh::Addr(a) => {
             if nh.map(|n| n.addr()) != Some(*a) {
                 if e.nh_by_policy {
-                    out.push(("policy-nexthop", policy_name(s.policy).into(), format!("next hop {:?}, export policy {} says {}", nh, policy_name(s.policy), a)));
+                    out.push((
+                        "policy-nexthop",
+                        policy_name(s.policy).into(),
+                        format!(
+                            "next hop {:?}, export policy {} says {}",
+                            nh,
+                            policy_name(s.policy),
+                            a
+                        ),
+                    ));
                 } else {
-                    out.push(("nexthop", if nh.is_none() { "missing".into() } else { "not-self".into() }, format!("next hop {:?}, expected self ({})", nh, a)));
+                    out.push((
+                        "nexthop",
+                        if nh.is_none() {
+                            "missing".into()
+                        } else {
+                            "not-self".into()
+                        },
+                        format!("next hop {:?}, expected self ({})", nh, a),
+                    ));
                 }
             }
         }
         ExpNh::Same(n) => {
             if nh != Some(*n) {
                 if e.nh_by_policy {
-                    out.push(("policy-nexthop", policy_name(s.policy).into(), format!("next hop {:?}, export policy {} says {:?}", nh, policy_name(s.policy), n)));
+                    out.push((
+                        "policy-nexthop",
+                        policy_name(s.policy).into(),
+                        format!(
+                            "next hop {:?}, export policy {} says {:?}",
+                            nh,
+                            policy_name(s.policy),
+                            n
+                        ),
+                    ));
                 } else {
-                    out.push(("nexthop", if nh.is_none() { "missing".into() } else { "changed".into() }, format!("next hop {:?}, expected the stored next hop {:?} untouched", nh, n)));
+                    out.push((
+                        "nexthop",
+                        if nh.is_none() {
+                            "missing".into()
+                        } else {
+                            "changed".into()
+                        },
+                        format!(
+                            "next hop {:?}, expected the stored next hop {:?} untouched",
+                            nh, n
+                        ),
+                    ));
                 }
             }
         }
@@ -1060,7 +1342,14 @@ struct Ctx {
     pol: Policies,
 }
 
-fn witness(cell: &Cell, s: &Spec, env: &Env, input: &[packet::Attribute], exp: &Expected, observed: Json) -> Json {
+fn witness(
+    cell: &Cell,
+    s: &Spec,
+    env: &Env,
+    input: &[packet::Attribute],
+    exp: &Expected,
+    observed: Json,
+) -> Json {
     Json::obj(vec![
         ("cell", Json::s(format!("{:?}", cell))),
         ("spec", Json::s(format!("{:?}", s))),
@@ -1069,21 +1358,37 @@ fn witness(cell: &Cell, s: &Spec, env: &Env, input: &[packet::Attribute], exp: &
         ("receiver_addr", Json::s(env.recv_addr.to_string())),
         ("source_addr", Json::s(env.src_addr.to_string())),
         ("ctx_local_asn", Json::Int(env.ctx_local_asn as i128)),
-        ("confederation_id", Json::Int(if cell.confed { CONFED_ID as i128 } else { 0 })),
+        (
+            "confederation_id",
+            Json::Int(if cell.confed { CONFED_ID as i128 } else { 0 }),
+        ),
         ("cluster_id", Json::s(format!("{:?}", cell.cl.id()))),
         ("stored_nexthop", Json::s(format!("{:?}", env.stored_nh))),
         ("export_policy", Json::s(policy_name(s.policy))),
-        ("branch", Json::s(if s.addpath { "add-path (effective_max=4)" } else { "non-add-path (effective_max=1)" })),
+        (
+            "branch",
+            Json::s(if s.addpath {
+                "add-path (effective_max=4)"
+            } else {
+                "non-add-path (effective_max=1)"
+            }),
+        ),
         ("input_attrs", attrs_json(input)),
-        ("expected", Json::s(match exp {
-            Expected::Suppress(c) => format!("Suppress({})", c),
-            Expected::Either(w, _) => format!("Either({})", w),
-            Expected::Send(e) => {
-                let mut t = format!("{:?}", e);
-                if t.len() > 1500 { t.truncate(1500); t.push('…'); }
-                t
-            }
-        })),
+        (
+            "expected",
+            Json::s(match exp {
+                Expected::Suppress(c) => format!("Suppress({})", c),
+                Expected::Either(w, _) => format!("Either({})", w),
+                Expected::Send(e) => {
+                    let mut t = format!("{:?}", e);
+                    if t.len() > 1500 {
+                        t.truncate(1500);
+                        t.push('…');
+                    }
+                    t
+                }
+            }),
+        ),
         ("observed", observed),
     ])
 }
@@ -1093,7 +1398,12 @@ fn run_case(ctx: &mut Ctx, cell: &Cell, s: &Spec) {
 }
 
 /// `over`: use this (daemon-derived) export context / cluster-id instead of the cell's.
-fn run_case_with(ctx: &mut Ctx, cell: &Cell, s: &Spec, over: Option<(&PeerExportContext, Option<Ipv4Addr>)>) {
+fn run_case_with(
+    ctx: &mut Ctx,
+    cell: &Cell,
+    s: &Spec,
+    over: Option<(&PeerExportContext, Option<Ipv4Addr>)>,
+) {
     let env = make_env(cell, s);
     let input = build_attrs(s);
     let source = make_source(cell, &env, s.llgr && cell.src.is_peer());
@@ -1106,12 +1416,25 @@ fn run_case_with(ctx: &mut Ctx, cell: &Cell, s: &Spec, over: Option<(&PeerExport
     let mut paths = vec![subject];
     if s.decoy {
         // a second, worse path from another peer of a kind the receiver may hear
-        let role = if cell.dst == PeerRole::RsClient { PeerRole::RsClient } else { PeerRole::Ebgp };
-        let dsrc = Arc::new(table::Source::new(env.decoy_addr, env.local_addr, 65009, LOCAL_AS, Ipv4Addr::new(10, 0, 0, 9), role));
+        let role = if cell.dst == PeerRole::RsClient {
+            PeerRole::RsClient
+        } else {
+            PeerRole::Ebgp
+        };
+        let dsrc = Arc::new(table::Source::new(
+            env.decoy_addr,
+            env.local_addr,
+            65009,
+            LOCAL_AS,
+            Ipv4Addr::new(10, 0, 0, 9),
+            role,
+        ));
         paths.push(table::Path {
             local_path_id: DECOY_PID,
             source: dsrc,
-            nexthop: env.stored_nh.or(Some(bgp::Nexthop::V4(Ipv4Addr::new(192, 0, 2, 99)))),
+            nexthop: env
+                .stored_nh
+                .or(Some(bgp::Nexthop::V4(Ipv4Addr::new(192, 0, 2, 99)))),
             attr: Arc::new(vec![
                 packet::Attribute::new_with_value(packet::Attribute::ORIGIN, 2).unwrap(),
                 as_path_attr(&[(SEG_SEQ, vec![65009, 64700, 64701, 64702])]),
@@ -1146,14 +1469,26 @@ fn run_case_with(ctx: &mut Ctx, cell: &Cell, s: &Spec, over: Option<(&PeerExport
         Some((_, c)) => c,
         None => cell.cl.id(),
     };
-    let policy = if s.nh == 1 { ctx.pol.v6[s.policy as usize].clone() } else { ctx.pol.v4[s.policy as usize].clone() };
+    let policy = if s.nh == 1 {
+        ctx.pol.v6[s.policy as usize].clone()
+    } else {
+        ctx.pol.v4[s.policy as usize].clone()
+    };
     let exp = expected_export(cell, s, &env);
 
     ctx.rep.eval();
-    ctx.rep.count(if s.addpath { "branch:add-path" } else { "branch:non-add-path" });
+    ctx.rep.count(if s.addpath {
+        "branch:add-path"
+    } else {
+        "branch:non-add-path"
+    });
     let mut rec = Rec::default();
     let res = guard(|| {
-        let mut em = if s.addpath { ExportMap::new([env.family]) } else { ExportMap::default() };
+        let mut em = if s.addpath {
+            ExportMap::new([env.family])
+        } else {
+            ExportMap::default()
+        };
         process_nlri_change(
             &update,
             if s.addpath { 4 } else { 1 },
@@ -1170,8 +1505,22 @@ fn run_case_with(ctx: &mut Ctx, cell: &Cell, s: &Spec, over: Option<(&PeerExport
     });
     if let Err(p) = res {
         let sig = format!("C09/panic/{}:{}", p.location, panic_class(&p.message));
-        let w = witness(cell, s, &env, &input, &exp, Json::s(format!("panic: {}", p.message)));
-        ctx.rep.violation(&sig, &format!("process_nlri_change panicked at {}: {}", p.location, p.message), w);
+        let w = witness(
+            cell,
+            s,
+            &env,
+            &input,
+            &exp,
+            Json::s(format!("panic: {}", p.message)),
+        );
+        ctx.rep.violation(
+            &sig,
+            &format!(
+                "process_nlri_change panicked at {}: {}",
+                p.location, p.message
+            ),
+            w,
+        );
         return;
     }
     let want_pid = if s.addpath { SUBJECT_PID } else { 0 };
@@ -1182,7 +1531,10 @@ fn run_case_with(ctx: &mut Ctx, cell: &Cell, s: &Spec, over: Option<(&PeerExport
         .map(|r| (r.2, Arc::clone(&r.3)));
     let observed_json = match &got {
         None => Json::s("nothing sent for the subject path"),
-        Some((nh, a)) => Json::obj(vec![("nexthop", Json::s(format!("{:?}", nh))), ("attrs", attrs_json(a))]),
+        Some((nh, a)) => Json::obj(vec![
+            ("nexthop", Json::s(format!("{:?}", nh))),
+            ("attrs", attrs_json(a)),
+        ]),
     };
     let pair = cell.pair();
     let mut nontrivial = false;
@@ -1195,7 +1547,12 @@ fn run_case_with(ctx: &mut Ctx, cell: &Cell, s: &Spec, over: Option<(&PeerExport
             ctx.rep.count(&format!("clause:suppress:{}", clause));
             nontrivial = true;
             let sig = format!("C09/{}/{}/sent", clause, pair);
-            let what = format!("route from a {} source was advertised to a {} receiver although the {} rule forbids it", cell.src.name(), role_name(cell.dst), clause);
+            let what = format!(
+                "route from a {} source was advertised to a {} receiver although the {} rule forbids it",
+                cell.src.name(),
+                role_name(cell.dst),
+                clause
+            );
             let w = witness(cell, s, &env, &input, &exp, observed_json.clone());
             ctx.rep.violation(&sig, &what, w);
         }
@@ -1206,7 +1563,11 @@ fn run_case_with(ctx: &mut Ctx, cell: &Cell, s: &Spec, over: Option<(&PeerExport
             ctx.rep.count("clause:send");
             nontrivial = true;
             let sig = format!("C09/unexpected-suppress/{}/not-sent", pair);
-            let what = format!("route from a {} source is not advertised to a {} receiver although none of the echo / split-horizon / route-server rules applies", cell.src.name(), role_name(cell.dst));
+            let what = format!(
+                "route from a {} source is not advertised to a {} receiver although none of the echo / split-horizon / route-server rules applies",
+                cell.src.name(),
+                role_name(cell.dst)
+            );
             let w = witness(cell, s, &env, &input, &exp, observed_json.clone());
             ctx.rep.violation(&sig, &what, w);
         }
@@ -1255,7 +1616,8 @@ fn run_case_with(ctx: &mut Ctx, cell: &Cell, s: &Spec, over: Option<(&PeerExport
         }
     }
     if nontrivial {
-        ctx.rep.nontrivial(fnv64(format!("{:?}|{:?}", cell, s).as_bytes()));
+        ctx.rep
+            .nontrivial(fnv64(format!("{:?}|{:?}", cell, s).as_bytes()));
     }
     if ctx.rep.want_sample() && ctx.rep.evaluations % 1013 == 7 {
         let w = witness(cell, s, &env, &input, &exp, observed_json);
@@ -1297,7 +1659,10 @@ fn full_spec() -> Spec {
         med: Some(50),
         lp: Some(200),
         originator: Some(u32::from(Ipv4Addr::new(10, 9, 9, 9))),
-        cluster: vec![u32::from(Ipv4Addr::new(8, 8, 8, 8)), u32::from(Ipv4Addr::new(7, 7, 7, 7))],
+        cluster: vec![
+            u32::from(Ipv4Addr::new(8, 8, 8, 8)),
+            u32::from(Ipv4Addr::new(7, 7, 7, 7)),
+        ],
         aigp: true,
         comm: 1,
         opq_t: 1,
@@ -1344,8 +1709,20 @@ fn covering_specs() -> Vec<Spec> {
             Box::new(|s| s.origin = if s.origin.is_some() { None } else { Some(2) }),
             Box::new(|s| s.med = if s.med.is_some() { None } else { Some(50) }),
             Box::new(|s| s.lp = if s.lp.is_some() { None } else { Some(200) }),
-            Box::new(|s| s.originator = if s.originator.is_some() { None } else { Some(u32::from(Ipv4Addr::new(10, 9, 9, 9))) }),
-            Box::new(|s| s.cluster = if s.cluster.is_empty() { vec![u32::from(Ipv4Addr::new(8, 8, 8, 8))] } else { vec![] }),
+            Box::new(|s| {
+                s.originator = if s.originator.is_some() {
+                    None
+                } else {
+                    Some(u32::from(Ipv4Addr::new(10, 9, 9, 9)))
+                }
+            }),
+            Box::new(|s| {
+                s.cluster = if s.cluster.is_empty() {
+                    vec![u32::from(Ipv4Addr::new(8, 8, 8, 8))]
+                } else {
+                    vec![]
+                }
+            }),
             Box::new(|s| s.aigp = !s.aigp),
             Box::new(|s| s.comm = (s.comm + 1) % 3),
             Box::new(|s| s.comm = (s.comm + 2) % 3),
@@ -1379,23 +1756,50 @@ fn covering_specs() -> Vec<Spec> {
 fn random_spec(rng: &mut Rng) -> Spec {
     let nh = *rng.pick(&[0u8, 0, 1, 2]);
     Spec {
-        origin: if rng.chance(9, 10) { Some(rng.below(3) as u8) } else { None },
+        origin: if rng.chance(9, 10) {
+            Some(rng.below(3) as u8)
+        } else {
+            None
+        },
         path: rng.below(N_SHAPES as u64) as u8,
         nh,
-        med: if rng.bool() { Some(rng.below(1000) as u32) } else { None },
-        lp: if rng.bool() { Some(*rng.pick(&[0u32, 50, 100, 200, u32::MAX])) } else { None },
-        originator: if rng.chance(1, 3) { Some(u32::from(Ipv4Addr::new(10, 9, 9, rng.range(1, 200) as u8))) } else { None },
+        med: if rng.bool() {
+            Some(rng.below(1000) as u32)
+        } else {
+            None
+        },
+        lp: if rng.bool() {
+            Some(*rng.pick(&[0u32, 50, 100, 200, u32::MAX]))
+        } else {
+            None
+        },
+        originator: if rng.chance(1, 3) {
+            Some(u32::from(Ipv4Addr::new(10, 9, 9, rng.range(1, 200) as u8)))
+        } else {
+            None
+        },
         cluster: match rng.below(4) {
             0 => vec![u32::from(Ipv4Addr::new(8, 8, 8, 8))],
-            1 => vec![u32::from(Ipv4Addr::new(8, 8, 8, 8)), u32::from(Ipv4Addr::new(7, 7, 7, 7))],
+            1 => vec![
+                u32::from(Ipv4Addr::new(8, 8, 8, 8)),
+                u32::from(Ipv4Addr::new(7, 7, 7, 7)),
+            ],
             _ => vec![],
         },
         aigp: rng.chance(1, 3),
         comm: rng.below(3) as u8,
         opq_t: if rng.bool() { rng.range(1, 3) as u8 } else { 0 },
-        opq_nt: if rng.chance(1, 3) { rng.range(1, 2) as u8 } else { 0 },
+        opq_nt: if rng.chance(1, 3) {
+            rng.range(1, 2) as u8
+        } else {
+            0
+        },
         llgr: rng.chance(1, 3),
-        policy: if rng.bool() { 0 } else { rng.range(1, (N_POLICIES - 1) as u64) as u8 },
+        policy: if rng.bool() {
+            0
+        } else {
+            rng.range(1, (N_POLICIES - 1) as u64) as u8
+        },
         addpath: rng.bool(),
         decoy: rng.chance(1, 3),
         ctx_asn_confed: rng.bool(),
@@ -1409,7 +1813,8 @@ fn run_matrix(ctx: &mut Ctx, rng: &mut Rng, shard: u64, nshards: u64, random_per
     let cells = all_cells();
     let covering = covering_specs();
     ctx.rep.count_n("matrix:cells-total", cells.len() as u64);
-    ctx.rep.count_n("matrix:covering-specs", covering.len() as u64);
+    ctx.rep
+        .count_n("matrix:covering-specs", covering.len() as u64);
     let mut complete = true;
     for (i, cell) in cells.iter().enumerate() {
         if (i as u64) % nshards != shard % nshards {
@@ -1429,7 +1834,8 @@ fn run_matrix(ctx: &mut Ctx, rng: &mut Rng, shard: u64, nshards: u64, random_per
         }
     }
     if !complete {
-        ctx.rep.inconclusive("matrix: time budget used up before every cell of this shard was run");
+        ctx.rep
+            .inconclusive("matrix: time budget used up before every cell of this shard was run");
     }
 }
 
@@ -1458,7 +1864,10 @@ fn apply_rec(view: &mut View, rec: Rec, log: &mut Vec<String>) {
         let stale = find1(&attrs, packet::Attribute::COMMUNITY)
             .and_then(|a| a.binary())
             .is_some_and(|b| bytes_to_u32s(b).contains(&LLGR_STALE));
-        log.push(format!("reach path_id={} from {} llgr_stale_community={}", pid, src.remote_addr, stale));
+        log.push(format!(
+            "reach path_id={} from {} llgr_stale_community={}",
+            pid, src.remote_addr, stale
+        ));
         view.insert(pid, (attrs, src));
     }
 }
@@ -1483,12 +1892,40 @@ fn run_llgr_history(ctx: &mut Ctx) {
                 let recv: IpAddr = "10.0.0.3".parse().unwrap();
                 let local: IpAddr = "10.0.0.1".parse().unwrap();
                 let src_addr: IpAddr = "10.0.0.2".parse().unwrap();
-                let src = Arc::new(table::Source::new(src_addr, local, srck.remote_asn(), LOCAL_AS, SRC_RID, srck.role().unwrap()));
-                let orole = if dst == PeerRole::RsClient { PeerRole::RsClient } else { PeerRole::Ebgp };
-                let osrc = Arc::new(table::Source::new("10.0.0.9".parse().unwrap(), local, 65009, LOCAL_AS, Ipv4Addr::new(10, 0, 0, 9), orole));
-                let export_ctx = PeerExportContext { role: dst, local_asn: LOCAL_AS, local_addr: local, link_addr: None, confederation_id: 0 };
+                let src = Arc::new(table::Source::new(
+                    src_addr,
+                    local,
+                    srck.remote_asn(),
+                    LOCAL_AS,
+                    SRC_RID,
+                    srck.role().unwrap(),
+                ));
+                let orole = if dst == PeerRole::RsClient {
+                    PeerRole::RsClient
+                } else {
+                    PeerRole::Ebgp
+                };
+                let osrc = Arc::new(table::Source::new(
+                    "10.0.0.9".parse().unwrap(),
+                    local,
+                    65009,
+                    LOCAL_AS,
+                    Ipv4Addr::new(10, 0, 0, 9),
+                    orole,
+                ));
+                let export_ctx = PeerExportContext {
+                    role: dst,
+                    local_asn: LOCAL_AS,
+                    local_addr: local,
+                    link_addr: None,
+                    confederation_id: 0,
+                };
                 // the daemon gives every iBGP session a cluster-id (router-id by default), others none
-                let cluster_id = if is_ibgp_role(dst) { Some(LOCAL_RID) } else { None };
+                let cluster_id = if is_ibgp_role(dst) {
+                    Some(LOCAL_RID)
+                } else {
+                    None
+                };
                 let mut log: Vec<String> = Vec::new();
                 let mut view: View = View::new();
                 let res = guard(|| {
@@ -1498,45 +1935,118 @@ fn run_llgr_history(ctx: &mut Ctx) {
                         ap.insert(family);
                     }
                     let mut rx = tables.register_peer(recv, ap, |_| {});
-                    let mut em = if addpath { ExportMap::new([family]) } else { ExportMap::default() };
+                    let mut em = if addpath {
+                        ExportMap::new([family])
+                    } else {
+                        ExportMap::default()
+                    };
                     let net: packet::Nlri = "10.1.0.0/16".parse().unwrap();
                     let mk = |first: u32, extra: usize| {
                         let mut asns = vec![first];
                         for i in 0..extra {
                             asns.push(64700 + i as u32);
                         }
-                        let mut v = vec![packet::Attribute::new_with_value(packet::Attribute::ORIGIN, 0).unwrap()];
+                        let mut v = vec![
+                            packet::Attribute::new_with_value(packet::Attribute::ORIGIN, 0)
+                                .unwrap(),
+                        ];
                         if first != 0 {
                             v.push(as_path_attr(&[(SEG_SEQ, asns)]));
                         } else {
                             v.push(packet::Attribute::empty_as_path());
                         }
-                        v.push(packet::Attribute::new_with_value(packet::Attribute::LOCAL_PREF, 100).unwrap());
+                        v.push(
+                            packet::Attribute::new_with_value(packet::Attribute::LOCAL_PREF, 100)
+                                .unwrap(),
+                        );
                         Arc::new(v)
                     };
-                    let first_as = if srck.is_ibgp() { 64999 } else { srck.remote_asn() };
-                    let mut step = |what: String, em: &mut ExportMap, view: &mut View, log: &mut Vec<String>| {
+                    let first_as = if srck.is_ibgp() {
+                        64999
+                    } else {
+                        srck.remote_asn()
+                    };
+                    let mut step = |what: String,
+                                    em: &mut ExportMap,
+                                    view: &mut View,
+                                    log: &mut Vec<String>| {
                         log.push(what);
                         for ch in drain_changes(&mut rx) {
-                            log.push(format!("  change best_changed={} any_changed={} replaced={:?} paths={}", ch.best_changed, ch.any_changed, ch.replaced_path_id, ch.current_paths.len()));
+                            log.push(format!(
+                                "  change best_changed={} any_changed={} replaced={:?} paths={}",
+                                ch.best_changed,
+                                ch.any_changed,
+                                ch.replaced_path_id,
+                                ch.current_paths.len()
+                            ));
                             let mut rec = Rec::default();
-                            process_nlri_change(&ch, if addpath { 4 } else { 1 }, recv, em, &mut rec, &export_ctx, None, cluster_id, None, None, None);
+                            process_nlri_change(
+                                &ch,
+                                if addpath { 4 } else { 1 },
+                                recv,
+                                em,
+                                &mut rec,
+                                &export_ctx,
+                                None,
+                                cluster_id,
+                                None,
+                                None,
+                                None,
+                            );
                             apply_rec(view, rec, log);
                         }
                     };
-                    tables.insert_route(src.clone(), family, packet::PathNlri::new(net.clone()), Some(bgp::Nexthop::V4(Ipv4Addr::new(192, 0, 2, 55))), mk(first_as, 2), None, 0);
-                    step(format!("insert route from {} ({})", src_addr, srck.name()), &mut em, &mut view, &mut log);
+                    tables.insert_route(
+                        src.clone(),
+                        family,
+                        packet::PathNlri::new(net.clone()),
+                        Some(bgp::Nexthop::V4(Ipv4Addr::new(192, 0, 2, 55))),
+                        mk(first_as, 2),
+                        None,
+                        0,
+                    );
+                    step(
+                        format!("insert route from {} ({})", src_addr, srck.name()),
+                        &mut em,
+                        &mut view,
+                        &mut log,
+                    );
                     if other != 0 {
                         let extra = if other == 1 { 5 } else { 0 };
-                        tables.insert_route(osrc.clone(), family, packet::PathNlri::new(net.clone()), Some(bgp::Nexthop::V4(Ipv4Addr::new(192, 0, 2, 99))), mk(65009, extra), None, 0);
-                        step(format!("insert {} route from 10.0.0.9", if other == 1 { "worse" } else { "better" }), &mut em, &mut view, &mut log);
+                        tables.insert_route(
+                            osrc.clone(),
+                            family,
+                            packet::PathNlri::new(net.clone()),
+                            Some(bgp::Nexthop::V4(Ipv4Addr::new(192, 0, 2, 99))),
+                            mk(65009, extra),
+                            None,
+                            0,
+                        );
+                        step(
+                            format!(
+                                "insert {} route from 10.0.0.9",
+                                if other == 1 { "worse" } else { "better" }
+                            ),
+                            &mut em,
+                            &mut view,
+                            &mut log,
+                        );
                     }
                     tables.mark_llgr_stale(src_addr, &[family]);
-                    step(format!("mark_llgr_stale({})", src_addr), &mut em, &mut view, &mut log);
+                    step(
+                        format!("mark_llgr_stale({})", src_addr),
+                        &mut em,
+                        &mut view,
+                        &mut log,
+                    );
                 });
                 if let Err(p) = res {
                     let sig = format!("C09/panic/{}:{}", p.location, panic_class(&p.message));
-                    ctx.rep.violation(&sig, &format!("LLGR history panicked at {}: {}", p.location, p.message), Json::obj(vec![("log", Json::strs(log.clone()))]));
+                    ctx.rep.violation(
+                        &sig,
+                        &format!("LLGR history panicked at {}: {}", p.location, p.message),
+                        Json::obj(vec![("log", Json::strs(log.clone()))]),
+                    );
                     continue;
                 }
                 // judged at quiescence: every advertisement the receiver holds for a route
@@ -1554,23 +2064,50 @@ fn run_llgr_history(ctx: &mut Ctx) {
                         ctx.rep.count("llgr-history:held-with-llgr-stale");
                     } else {
                         // the behaviour does not depend on the roles: one signature per branch
-                        ctx.rep.count(&format!("llgr-history:not-readvertised:{}-to-{}", srck.name(), role_name(dst)));
-                        let sig = format!("C09/llgr/peer-to-any/stale-transition-{}", if addpath { "addpath" } else { "plain" });
-                        let what = format!("after mark_llgr_stale the {} receiver still holds the advertisement of the now LLGR-stale {} route without LLGR_STALE (it is never re-advertised)", role_name(dst), srck.name());
-                        ctx.rep.violation(&sig, &what, Json::obj(vec![
-                            ("source", Json::s(srck.name())),
-                            ("receiver_role", Json::s(role_name(dst))),
-                            ("branch", Json::s(if addpath { "add-path" } else { "non-add-path" })),
-                            ("other_path", Json::s(match other { 0 => "none", 1 => "worse path from another peer", _ => "better path from another peer" })),
-                            ("path_id", Json::Int(*pid as i128)),
-                            ("held_attrs", attrs_json(attrs)),
-                            ("history", Json::strs(log.clone())),
-                        ]));
+                        ctx.rep.count(&format!(
+                            "llgr-history:not-readvertised:{}-to-{}",
+                            srck.name(),
+                            role_name(dst)
+                        ));
+                        let sig = format!(
+                            "C09/llgr/peer-to-any/stale-transition-{}",
+                            if addpath { "addpath" } else { "plain" }
+                        );
+                        let what = format!(
+                            "after mark_llgr_stale the {} receiver still holds the advertisement of the now LLGR-stale {} route without LLGR_STALE (it is never re-advertised)",
+                            role_name(dst),
+                            srck.name()
+                        );
+                        ctx.rep.violation(
+                            &sig,
+                            &what,
+                            Json::obj(vec![
+                                ("source", Json::s(srck.name())),
+                                ("receiver_role", Json::s(role_name(dst))),
+                                (
+                                    "branch",
+                                    Json::s(if addpath { "add-path" } else { "non-add-path" }),
+                                ),
+                                (
+                                    "other_path",
+                                    Json::s(match other {
+                                        0 => "none",
+                                        1 => "worse path from another peer",
+                                        _ => "better path from another peer",
+                                    }),
+                                ),
+                                ("path_id", Json::Int(*pid as i128)),
+                                ("held_attrs", attrs_json(attrs)),
+                                ("history", Json::strs(log.clone())),
+                            ]),
+                        );
                     }
                 }
                 if held_stale {
                     ctx.rep.count("llgr-history:receiver-holds-stale-route");
-                    ctx.rep.nontrivial(fnv64(format!("llgr|{:?}|{:?}|{}|{}", srck, dst, addpath, other).as_bytes()));
+                    ctx.rep.nontrivial(fnv64(
+                        format!("llgr|{:?}|{:?}|{}|{}", srck, dst, addpath, other).as_bytes(),
+                    ));
                 }
             }
         }
@@ -1590,7 +2127,12 @@ fn seg_name(t: u8) -> &'static str {
 
 fn run_as_loop(ctx: &mut Ctx) {
     // (local_asn, confederation_id)
-    for (local_asn, confed) in [(LOCAL_AS, 0u32), (LOCAL_AS, CONFED_ID), (LOCAL_AS, LOCAL_AS), (4_200_000_001u32, CONFED_ID)] {
+    for (local_asn, confed) in [
+        (LOCAL_AS, 0u32),
+        (LOCAL_AS, CONFED_ID),
+        (LOCAL_AS, LOCAL_AS),
+        (4_200_000_001u32, CONFED_ID),
+    ] {
         for seg in [SEG_SET, SEG_SEQ, SEG_CSEQ, SEG_CSET] {
             // target: 0 = neither, 1 = local AS, 2 = confederation id
             for target in 0..3u8 {
@@ -1601,7 +2143,13 @@ fn run_as_loop(ctx: &mut Ctx) {
                     let t_asn = match target {
                         0 => 64999,
                         1 => local_asn,
-                        _ => if confed != 0 { confed } else { CONFED_ID },
+                        _ => {
+                            if confed != 0 {
+                                confed
+                            } else {
+                                CONFED_ID
+                            }
+                        }
                     };
                     let segs: Vec<(u8, Vec<u32>)> = match layout {
                         0 => vec![(seg, vec![t_asn, 64601, 64602])],
@@ -1626,14 +2174,25 @@ fn run_as_loop(ctx: &mut Ctx) {
                     let got = match guard(|| is_as_loop(&attrs, local_asn, confed)) {
                         Ok(g) => g,
                         Err(p) => {
-                            let sig = format!("C09/panic/{}:{}", p.location, panic_class(&p.message));
-                            ctx.rep.violation(&sig, &format!("is_as_loop panicked: {}", p.message), Json::obj(vec![("attrs", attrs_json(&attrs))]));
+                            let sig =
+                                format!("C09/panic/{}:{}", p.location, panic_class(&p.message));
+                            ctx.rep.violation(
+                                &sig,
+                                &format!("is_as_loop panicked: {}", p.message),
+                                Json::obj(vec![("attrs", attrs_json(&attrs))]),
+                            );
                             continue;
                         }
                     };
                     if want {
                         ctx.rep.count("as-loop:looping");
-                        ctx.rep.nontrivial(fnv64(format!("asloop|{}|{}|{}|{}|{}", local_asn, confed, seg, target, layout).as_bytes()));
+                        ctx.rep.nontrivial(fnv64(
+                            format!(
+                                "asloop|{}|{}|{}|{}|{}",
+                                local_asn, confed, seg, target, layout
+                            )
+                            .as_bytes(),
+                        ));
                     }
                     if got != want {
                         let fact = match (want, target) {
@@ -1657,16 +2216,29 @@ fn run_as_loop(ctx: &mut Ctx) {
     }
     // no AS_PATH at all: nothing to loop
     ctx.rep.eval();
-    let attrs = Arc::new(vec![packet::Attribute::new_with_value(packet::Attribute::ORIGIN, 0).unwrap()]);
+    let attrs = Arc::new(vec![
+        packet::Attribute::new_with_value(packet::Attribute::ORIGIN, 0).unwrap(),
+    ]);
     if let Ok(true) = guard(|| is_as_loop(&attrs, LOCAL_AS, CONFED_ID)) {
-        ctx.rep.violation("C09/as-loop/no-as-path/false-positive", "is_as_loop true without AS_PATH", Json::Null);
+        ctx.rep.violation(
+            "C09/as-loop/no-as-path/false-positive",
+            "is_as_loop true without AS_PATH",
+            Json::Null,
+        );
     }
 }
 
 // ------------------------------------------------------------------ inbound: rx_update ORIGINATOR_ID / CLUSTER_LIST
 
 fn test_peer_context() -> Arc<std::sync::Mutex<PeerContext>> {
-    let fsm = crate::fsm::PeerFsm::new(u32::from(LOCAL_RID), LOCAL_AS, vec![], 90, 0, FnvHashMap::default());
+    let fsm = crate::fsm::PeerFsm::new(
+        u32::from(LOCAL_RID),
+        LOCAL_AS,
+        vec![],
+        90,
+        0,
+        FnvHashMap::default(),
+    );
     let conn_arbiter = Arc::new(std::sync::Mutex::new(ConnArbiter::new(fsm)));
     Arc::new(std::sync::Mutex::new(PeerContext {
         conn_arbiter,
@@ -1690,7 +2262,11 @@ async fn run_rx_update(ctx: &mut Ctx) {
             vec![
                 (LOCAL_RID, Some(LOCAL_RID), "default"),
                 (LOCAL_RID, Some(EXPLICIT_CID), "explicit"),
-                (Ipv4Addr::new(200, 1, 2, 3), Some(Ipv4Addr::new(200, 1, 2, 3)), "default"),
+                (
+                    Ipv4Addr::new(200, 1, 2, 3),
+                    Some(Ipv4Addr::new(200, 1, 2, 3)),
+                    "default",
+                ),
             ]
         } else {
             vec![(LOCAL_RID, None, "none")]
@@ -1728,44 +2304,87 @@ async fn run_rx_update(ctx: &mut Ctx) {
                     let mut attrs = vec![
                         packet::Attribute::new_with_value(packet::Attribute::ORIGIN, 0).unwrap(),
                         as_path_attr(&[(SEG_SEQ, vec![64999])]),
-                        packet::Attribute::new_with_value(packet::Attribute::LOCAL_PREF, 100).unwrap(),
+                        packet::Attribute::new_with_value(packet::Attribute::LOCAL_PREF, 100)
+                            .unwrap(),
                     ];
                     if let Some(o) = originator {
-                        attrs.push(packet::Attribute::new_with_value(packet::Attribute::ORIGINATOR_ID, u32::from(o)).unwrap());
+                        attrs.push(
+                            packet::Attribute::new_with_value(
+                                packet::Attribute::ORIGINATOR_ID,
+                                u32::from(o),
+                            )
+                            .unwrap(),
+                        );
                     }
                     if let Some(l) = &list {
                         let v: Vec<u32> = l.iter().map(|x| u32::from(*x)).collect();
-                        attrs.push(packet::Attribute::new_with_bin(packet::Attribute::CLUSTER_LIST, u32s_to_bytes(&v)).unwrap());
+                        attrs.push(
+                            packet::Attribute::new_with_bin(
+                                packet::Attribute::CLUSTER_LIST,
+                                u32s_to_bytes(&v),
+                            )
+                            .unwrap(),
+                        );
                     }
                     let attrs = Arc::new(attrs);
                     ctx.rep.eval();
                     ctx.rep.count("rx-update:cases");
                     let tables: TableHandle = Arc::new(TableManager::new(1));
-                    let mut session = PeerSession::new_for_test(remote, test_peer_context(), tables.clone());
+                    let mut session =
+                        PeerSession::new_for_test(remote, test_peer_context(), tables.clone());
                     session.export_ctx.role = role;
                     session.local_router_id = rid;
                     session.cluster_id = cid;
                     let remote_asn = if is_ibgp_role(role) { LOCAL_AS } else { 65002 };
-                    session.source.insert(Family::IPV4, Arc::new(table::Source::new(remote, "10.0.0.1".parse().unwrap(), remote_asn, LOCAL_AS, SRC_RID, role)));
+                    session.source.insert(
+                        Family::IPV4,
+                        Arc::new(table::Source::new(
+                            remote,
+                            "10.0.0.1".parse().unwrap(),
+                            remote_asn,
+                            LOCAL_AS,
+                            SRC_RID,
+                            role,
+                        )),
+                    );
                     let reach = Some(bgp::ReachNlri {
                         family: Family::IPV4,
                         entries: vec![packet::PathNlri::new("10.7.0.0/16".parse().unwrap())],
                         nexthop: Some(bgp::Nexthop::V4(Ipv4Addr::new(192, 0, 2, 55))),
                     });
                     let _exceeded = session.rx_update(reach, None, attrs.clone(), 0).await;
-                    let adj_in = tables.collect_paths(table::TableQuery::AdjIn(remote), Family::IPV4, vec![], false);
+                    let adj_in = tables.collect_paths(
+                        table::TableQuery::AdjIn(remote),
+                        Family::IPV4,
+                        vec![],
+                        false,
+                    );
                     let loc = tables.collect_loc_rib_paths(Family::IPV4);
                     let installed = !adj_in.is_empty() || !loc.is_empty();
                     if !want_installed {
-                        ctx.rep.count(if orig_loop { "rx-update:originator-loop" } else { "rx-update:cluster-loop" });
-                        ctx.rep.nontrivial(fnv64(format!("rx|{:?}|{}|{}|{}|{}", role, rid, clname, orig, cl).as_bytes()));
+                        ctx.rep.count(if orig_loop {
+                            "rx-update:originator-loop"
+                        } else {
+                            "rx-update:cluster-loop"
+                        });
+                        ctx.rep.nontrivial(fnv64(
+                            format!("rx|{:?}|{}|{}|{}|{}", role, rid, clname, orig, cl).as_bytes(),
+                        ));
                     }
                     if installed != want_installed {
                         let sig = if installed {
                             if orig_loop {
                                 format!("C09/originator-loop/{}/installed", role_name(role))
                             } else {
-                                format!("C09/cluster-loop/{}/installed-{}", role_name(role), match cl { 2 => "only", 3 => "middle", _ => "last" })
+                                format!(
+                                    "C09/cluster-loop/{}/installed-{}",
+                                    role_name(role),
+                                    match cl {
+                                        2 => "only",
+                                        3 => "middle",
+                                        _ => "last",
+                                    }
+                                )
                             }
                         } else {
                             format!("C09/inbound/{}/clean-route-dropped", role_name(role))
@@ -1775,14 +2394,18 @@ async fn run_rx_update(ctx: &mut Ctx) {
                         } else {
                             "a route with neither an ORIGINATOR_ID nor a CLUSTER_LIST loop was not installed by rx_update"
                         };
-                        ctx.rep.violation(&sig, what, Json::obj(vec![
-                            ("session_role", Json::s(role_name(role))),
-                            ("local_router_id", Json::s(rid.to_string())),
-                            ("cluster_id", Json::s(format!("{:?} ({})", cid, clname))),
-                            ("attrs", attrs_json(&attrs)),
-                            ("installed", Json::Bool(installed)),
-                            ("expected_installed", Json::Bool(want_installed)),
-                        ]));
+                        ctx.rep.violation(
+                            &sig,
+                            what,
+                            Json::obj(vec![
+                                ("session_role", Json::s(role_name(role))),
+                                ("local_router_id", Json::s(rid.to_string())),
+                                ("cluster_id", Json::s(format!("{:?} ({})", cid, clname))),
+                                ("attrs", attrs_json(&attrs)),
+                                ("installed", Json::Bool(installed)),
+                                ("expected_installed", Json::Bool(want_installed)),
+                            ]),
+                        );
                     }
                 }
             }
@@ -1803,35 +2426,112 @@ struct Derived {
 
 async fn run_derived(ctx: &mut Ctx) {
     let cfgs = [
-        Derived { name: "ebgp", peer_as: 65002, rr_client: false, cluster: None, rs_client: false, confed: false },
-        Derived { name: "ibgp-default-cluster", peer_as: LOCAL_AS, rr_client: false, cluster: None, rs_client: false, confed: false },
-        Derived { name: "ibgp-explicit-cluster", peer_as: LOCAL_AS, rr_client: false, cluster: Some(EXPLICIT_CID), rs_client: false, confed: false },
-        Derived { name: "rr-client-default-cluster", peer_as: LOCAL_AS, rr_client: true, cluster: None, rs_client: false, confed: false },
-        Derived { name: "rr-client-explicit-cluster", peer_as: LOCAL_AS, rr_client: true, cluster: Some(EXPLICIT_CID), rs_client: false, confed: false },
-        Derived { name: "rs-client", peer_as: 65003, rr_client: false, cluster: None, rs_client: true, confed: false },
-        Derived { name: "confed-member", peer_as: 65010, rr_client: false, cluster: None, rs_client: false, confed: true },
-        Derived { name: "confed-external", peer_as: 65002, rr_client: false, cluster: None, rs_client: false, confed: true },
-        Derived { name: "confed-ibgp-rr-client", peer_as: LOCAL_AS, rr_client: true, cluster: None, rs_client: false, confed: true },
+        Derived {
+            name: "ebgp",
+            peer_as: 65002,
+            rr_client: false,
+            cluster: None,
+            rs_client: false,
+            confed: false,
+        },
+        Derived {
+            name: "ibgp-default-cluster",
+            peer_as: LOCAL_AS,
+            rr_client: false,
+            cluster: None,
+            rs_client: false,
+            confed: false,
+        },
+        Derived {
+            name: "ibgp-explicit-cluster",
+            peer_as: LOCAL_AS,
+            rr_client: false,
+            cluster: Some(EXPLICIT_CID),
+            rs_client: false,
+            confed: false,
+        },
+        Derived {
+            name: "rr-client-default-cluster",
+            peer_as: LOCAL_AS,
+            rr_client: true,
+            cluster: None,
+            rs_client: false,
+            confed: false,
+        },
+        Derived {
+            name: "rr-client-explicit-cluster",
+            peer_as: LOCAL_AS,
+            rr_client: true,
+            cluster: Some(EXPLICIT_CID),
+            rs_client: false,
+            confed: false,
+        },
+        Derived {
+            name: "rs-client",
+            peer_as: 65003,
+            rr_client: false,
+            cluster: None,
+            rs_client: true,
+            confed: false,
+        },
+        Derived {
+            name: "confed-member",
+            peer_as: 65010,
+            rr_client: false,
+            cluster: None,
+            rs_client: false,
+            confed: true,
+        },
+        Derived {
+            name: "confed-external",
+            peer_as: 65002,
+            rr_client: false,
+            cluster: None,
+            rs_client: false,
+            confed: true,
+        },
+        Derived {
+            name: "confed-ibgp-rr-client",
+            peer_as: LOCAL_AS,
+            rr_client: true,
+            cluster: None,
+            rs_client: false,
+            confed: true,
+        },
     ];
     for d in cfgs.iter() {
         // the oracle's own reading of the configuration
         let want_role = if d.rs_client {
             PeerRole::RsClient
         } else if d.peer_as == LOCAL_AS {
-            if d.rr_client { PeerRole::IbgpRrClient } else { PeerRole::Ibgp }
+            if d.rr_client {
+                PeerRole::IbgpRrClient
+            } else {
+                PeerRole::Ibgp
+            }
         } else if d.confed && d.peer_as == 65010 {
             PeerRole::ConfedEbgp
         } else {
             PeerRole::Ebgp
         };
         let want_cl = if is_ibgp_role(want_role) {
-            if d.cluster.is_some() { Cl::Explicit } else { Cl::Default }
+            if d.cluster.is_some() {
+                Cl::Explicit
+            } else {
+                Cl::Default
+            }
         } else {
             Cl::None
         };
-        let mut toml_s = format!("[config]\nneighbor-address = \"127.0.0.1\"\npeer-as = {}\n", d.peer_as);
+        let mut toml_s = format!(
+            "[config]\nneighbor-address = \"127.0.0.1\"\npeer-as = {}\n",
+            d.peer_as
+        );
         if d.rr_client || d.cluster.is_some() {
-            toml_s.push_str(&format!("[route-reflector.config]\nroute-reflector-client = {}\n", d.rr_client));
+            toml_s.push_str(&format!(
+                "[route-reflector.config]\nroute-reflector-client = {}\n",
+                d.rr_client
+            ));
             if let Some(c) = d.cluster {
                 toml_s.push_str(&format!("route-reflector-cluster-id = \"{}\"\n", c));
             }
@@ -1842,14 +2542,16 @@ async fn run_derived(ctx: &mut Ctx) {
         let neighbor: config::Neighbor = match toml::from_str(&toml_s) {
             Ok(n) => n,
             Err(e) => {
-                ctx.rep.inconclusive(&format!("derived: neighbour TOML rejected: {}", e));
+                ctx.rep
+                    .inconclusive(&format!("derived: neighbour TOML rejected: {}", e));
                 return;
             }
         };
         let params = match PeerParams::try_from(&neighbor) {
             Ok(p) => p,
             Err(e) => {
-                ctx.rep.inconclusive(&format!("derived: PeerParams::try_from failed: {}", e));
+                ctx.rep
+                    .inconclusive(&format!("derived: PeerParams::try_from failed: {}", e));
                 return;
             }
         };
@@ -1862,7 +2564,10 @@ async fn run_derived(ctx: &mut Ctx) {
             let mut members = FnvHashSet::default();
             members.insert(LOCAL_AS);
             members.insert(65010);
-            g.confederation = Some(ConfederationConfig { id: CONFED_ID, members });
+            g.confederation = Some(ConfederationConfig {
+                id: CONFED_ID,
+                members,
+            });
         }
         if g.add_peer(params, None).is_err() {
             ctx.rep.inconclusive("derived: add_peer failed");
@@ -1878,29 +2583,52 @@ async fn run_derived(ctx: &mut Ctx) {
             }
         };
         let addr = listener.local_addr().unwrap();
-        let (client, server) = tokio::join!(tokio::net::TcpStream::connect(addr), listener.accept());
+        let (client, server) =
+            tokio::join!(tokio::net::TcpStream::connect(addr), listener.accept());
         let (Ok(_client), Ok((server, _))) = (client, server) else {
             ctx.rep.count("derived:loopback-unavailable");
             return;
         };
-        let Some(session) = accept_connection(&global, &tables, server, crate::fsm::Role::Passive).await else {
-            ctx.rep.inconclusive("derived: accept_connection returned no session");
+        let Some(session) =
+            accept_connection(&global, &tables, server, crate::fsm::Role::Passive).await
+        else {
+            ctx.rep
+                .inconclusive("derived: accept_connection returned no session");
             return;
         };
         ctx.rep.count("derived:sessions");
         ctx.rep.eval();
         let got_role = session.export_ctx.role;
         if got_role != want_role {
-            ctx.rep.violation(&format!("C09/derived/{}/role", d.name), &format!("session role {:?}, configuration means {:?}", got_role, want_role), Json::s(toml_s.clone()));
+            ctx.rep.violation(
+                &format!("C09/derived/{}/role", d.name),
+                &format!(
+                    "session role {:?}, configuration means {:?}",
+                    got_role, want_role
+                ),
+                Json::s(toml_s.clone()),
+            );
             continue;
         }
         if session.cluster_id != want_cl.id() {
-            ctx.rep.violation(&format!("C09/derived/{}/cluster-id", d.name), &format!("session cluster-id {:?}, configuration means {:?}", session.cluster_id, want_cl.id()), Json::s(toml_s.clone()));
+            ctx.rep.violation(
+                &format!("C09/derived/{}/cluster-id", d.name),
+                &format!(
+                    "session cluster-id {:?}, configuration means {:?}",
+                    session.cluster_id,
+                    want_cl.id()
+                ),
+                Json::s(toml_s.clone()),
+            );
             continue;
         }
         let want_confed = if d.confed { CONFED_ID } else { 0 };
         if session.export_ctx.confederation_id != want_confed {
-            ctx.rep.violation(&format!("C09/derived/{}/confederation-id", d.name), "session confederation id differs from configuration", Json::s(toml_s.clone()));
+            ctx.rep.violation(
+                &format!("C09/derived/{}/confederation-id", d.name),
+                "session confederation id differs from configuration",
+                Json::s(toml_s.clone()),
+            );
             continue;
         }
         // run export cases with exactly the context / cluster-id the daemon derived
@@ -1911,14 +2639,25 @@ async fn run_derived(ctx: &mut Ctx) {
                     s.addpath = addpath;
                     s.nh = 0;
                     s.ctx_asn_confed = session.export_ctx.local_asn == CONFED_ID;
-                    let cell = Cell { src, dst: want_role, cl: want_cl, confed: d.confed, echo: false };
+                    let cell = Cell {
+                        src,
+                        dst: want_role,
+                        cl: want_cl,
+                        confed: d.confed,
+                        echo: false,
+                    };
                     let env0 = make_env(&cell, &s);
                     if session.export_ctx.local_asn != env0.ctx_local_asn {
                         ctx.rep.count("derived:local-asn-differs-from-model");
                         continue;
                     }
                     ctx.rep.count("derived:cases");
-                    run_case_with(ctx, &cell, &s, Some((&session.export_ctx, session.cluster_id)));
+                    run_case_with(
+                        ctx,
+                        &cell,
+                        &s,
+                        Some((&session.export_ctx, session.cluster_id)),
+                    );
                 }
             }
         }
@@ -2015,10 +2754,24 @@ fn gen_wpath(
     } else if b.dst == PeerRole::RsClient {
         Src::RsClient
     } else {
-        *rng.pick(&[Src::Ebgp, Src::Ebgp, Src::IbgpRrClient, Src::ConfedEbgp, Src::Local, Src::Kernel, Src::Ibgp])
+        *rng.pick(&[
+            Src::Ebgp,
+            Src::Ebgp,
+            Src::IbgpRrClient,
+            Src::ConfedEbgp,
+            Src::Local,
+            Src::Kernel,
+            Src::Ibgp,
+        ])
     };
     let echo = src.is_peer() && rng.chance(1, 12);
-    let cell = Cell { src, dst: b.dst, cl: b.cl, confed: b.confed, echo };
+    let cell = Cell {
+        src,
+        dst: b.dst,
+        cl: b.cl,
+        confed: b.confed,
+        echo,
+    };
     spec.llgr = src.is_peer() && rng.chance(1, 6);
     let nh_pick = rng.below(7);
     spec.nh = if nh_pick == 6 { 2 } else { 0 };
@@ -2035,8 +2788,19 @@ fn gen_wpath(
         Arc::new(build_attrs(&spec))
     };
     let exp = expected_export(&cell, &spec, &env);
-    let path = table::Path { local_path_id: pid, source, nexthop: env.stored_nh, attr };
-    WPath { cell, spec, env, path, exp }
+    let path = table::Path {
+        local_path_id: pid,
+        source,
+        nexthop: env.stored_nh,
+        attr,
+    };
+    WPath {
+        cell,
+        spec,
+        env,
+        path,
+        exp,
+    }
 }
 
 fn gen_batch(rng: &mut Rng) -> (Batch, Vec<(Spec, Arc<Vec<packet::Attribute>>)>) {
@@ -2052,7 +2816,11 @@ fn gen_batch(rng: &mut Rng) -> (Batch, Vec<(Spec, Arc<Vec<packet::Attribute>>)>)
         PeerRole::ConfedEbgp,
     ]);
     let cl = if is_ibgp_role(dst) {
-        if rng.bool() { Cl::Default } else { Cl::Explicit }
+        if rng.bool() {
+            Cl::Default
+        } else {
+            Cl::Explicit
+        }
     } else {
         Cl::None
     };
@@ -2087,7 +2855,9 @@ fn gen_batch(rng: &mut Rng) -> (Batch, Vec<(Spec, Arc<Vec<packet::Attribute>>)>)
 }
 
 fn wire_net(i: usize) -> packet::Nlri {
-    format!("10.{}.{}.0/24", 100 + i / 250, i % 250).parse().unwrap()
+    format!("10.{}.{}.0/24", 100 + i / 250, i % 250)
+        .parse()
+        .unwrap()
 }
 
 /// Apply drained messages to the receiver's view.  Returns keys that occurred
@@ -2112,7 +2882,12 @@ fn apply_wire_msgs(
                     }
                 }
             }
-            bgp::Message::Update(bgp::Update::Reach { entries, nexthop, attr, .. }) => {
+            bgp::Message::Update(bgp::Update::Reach {
+                entries,
+                nexthop,
+                attr,
+                ..
+            }) => {
                 for e in entries {
                     match index.get(&e.nlri) {
                         Some(i) => {
@@ -2132,30 +2907,66 @@ fn apply_wire_msgs(
     dups
 }
 
-fn wire_witness(sink: &str, b: &Batch, routes: &[WRoute], key: WireKey, wire: Option<&WireVal>, handed: Option<&WireVal>, log: &[String]) -> Json {
+fn wire_witness(
+    sink: &str,
+    b: &Batch,
+    routes: &[WRoute],
+    key: WireKey,
+    wire: Option<&WireVal>,
+    handed: Option<&WireVal>,
+    log: &[String],
+) -> Json {
     let r = &routes[key.0];
-    let wp = if b.addpath { r.paths.iter().find(|p| p.path.local_path_id == key.1) } else { r.paths.first() };
+    let wp = if b.addpath {
+        r.paths.iter().find(|p| p.path.local_path_id == key.1)
+    } else {
+        r.paths.first()
+    };
     let show = |v: Option<&WireVal>| match v {
         None => Json::s("absent"),
-        Some((nh, a)) => Json::obj(vec![("nexthop", Json::s(format!("{:?}", nh))), ("attrs", attrs_json(a))]),
+        Some((nh, a)) => Json::obj(vec![
+            ("nexthop", Json::s(format!("{:?}", nh))),
+            ("attrs", attrs_json(a)),
+        ]),
     };
     Json::obj(vec![
         ("sink", Json::s(sink)),
         ("receiver_role", Json::s(role_name(b.dst))),
         ("cluster_id", Json::s(format!("{:?}", b.cl.id()))),
         ("confederation", Json::Bool(b.confed)),
-        ("branch", Json::s(if b.addpath { "add-path" } else { "plain" })),
+        (
+            "branch",
+            Json::s(if b.addpath { "add-path" } else { "plain" }),
+        ),
         ("export_policy", Json::s(policy_name(b.policy))),
         ("prefix", Json::s(format!("{}", r.net))),
         ("path_id", Json::Int(key.1 as i128)),
-        ("cell", Json::s(wp.map(|p| format!("{:?}", p.cell)).unwrap_or_default())),
-        ("spec", Json::s(wp.map(|p| format!("{:?}", p.spec)).unwrap_or_default())),
-        ("stored_nexthop", Json::s(wp.map(|p| format!("{:?}", p.env.stored_nh)).unwrap_or_default())),
-        ("input_attrs", wp.map(|p| attrs_json(&p.path.attr)).unwrap_or(Json::Null)),
+        (
+            "cell",
+            Json::s(wp.map(|p| format!("{:?}", p.cell)).unwrap_or_default()),
+        ),
+        (
+            "spec",
+            Json::s(wp.map(|p| format!("{:?}", p.spec)).unwrap_or_default()),
+        ),
+        (
+            "stored_nexthop",
+            Json::s(
+                wp.map(|p| format!("{:?}", p.env.stored_nh))
+                    .unwrap_or_default(),
+            ),
+        ),
+        (
+            "input_attrs",
+            wp.map(|p| attrs_json(&p.path.attr)).unwrap_or(Json::Null),
+        ),
         ("on_the_wire", show(wire)),
         ("handed_to_the_sink", show(handed)),
         ("batch_prefixes", Json::Int(routes.len() as i128)),
-        ("history", Json::strs(log.iter().rev().take(40).rev().cloned())),
+        (
+            "history",
+            Json::strs(log.iter().rev().take(40).rev().cloned()),
+        ),
     ])
 }
 
@@ -2182,19 +2993,31 @@ fn judge_wire_view(
             None => {
                 let sig = format!("C09/wire-grouping/{}/prefix-lost", sink);
                 let w = wire_witness(sink, b, routes, *k, None, Some(handed), log);
-                ctx.rep.violation(&sig, "a route handed to the sink never shows up in the UPDATE messages", w);
+                ctx.rep.violation(
+                    &sig,
+                    "a route handed to the sink never shows up in the UPDATE messages",
+                    w,
+                );
             }
             Some(wire) => {
                 if wire.0 != handed.0 {
                     let other = shadow.iter().any(|(k2, h2)| k2 != k && h2.0 == wire.0);
-                    let fact = if other { "nexthop-of-another-route" } else { "nexthop-wrong" };
+                    let fact = if other {
+                        "nexthop-of-another-route"
+                    } else {
+                        "nexthop-wrong"
+                    };
                     let sig = format!("C09/wire-grouping/{}/{}", sink, fact);
                     let w = wire_witness(sink, b, routes, *k, Some(wire), Some(handed), log);
                     ctx.rep.violation(&sig, &format!("prefix is advertised with next hop {:?} but process_nlri_change exported it with {:?}", wire.0, handed.0), w);
                 }
                 if !(Arc::ptr_eq(&wire.1, &handed.1) || *wire.1 == *handed.1) {
                     let other = shadow.iter().any(|(k2, h2)| k2 != k && *h2.1 == *wire.1);
-                    let fact = if other { "attrs-of-another-route" } else { "attrs-wrong" };
+                    let fact = if other {
+                        "attrs-of-another-route"
+                    } else {
+                        "attrs-wrong"
+                    };
                     let sig = format!("C09/wire-grouping/{}/{}", sink, fact);
                     let w = wire_witness(sink, b, routes, *k, Some(wire), Some(handed), log);
                     ctx.rep.violation(&sig, "prefix is advertised with an attribute set other than the one process_nlri_change exported for it", w);
@@ -2206,7 +3029,11 @@ fn judge_wire_view(
         if !shadow.contains_key(k) {
             let sig = format!("C09/wire-grouping/{}/stale-entry", sink);
             let w = wire_witness(sink, b, routes, *k, Some(wire), None, log);
-            ctx.rep.violation(&sig, "the receiver holds an advertisement that was withdrawn / never handed to the sink", w);
+            ctx.rep.violation(
+                &sig,
+                "the receiver holds an advertisement that was withdrawn / never handed to the sink",
+                w,
+            );
         }
     }
     // 2. the statement, on what really goes out
@@ -2222,7 +3049,11 @@ fn judge_wire_view(
         for (pid, wp) in subjects {
             let k = (ri, pid);
             ctx.rep.eval();
-            ctx.rep.count(if sink == "grouped" { "wire:grouped:entries-judged" } else { "wire:pending:entries-judged" });
+            ctx.rep.count(if sink == "grouped" {
+                "wire:grouped:entries-judged"
+            } else {
+                "wire:pending:entries-judged"
+            });
             let wire = view.get(&k);
             let e = match (&wp.exp, wire) {
                 (Expected::Suppress(clause), Some(w)) => {
@@ -2231,7 +3062,14 @@ fn judge_wire_view(
                     if shadow.contains_key(&k) {
                         let sig = format!("C09/{}/{}/sent", clause, wp.cell.pair());
                         let wj = wire_witness(sink, b, routes, k, Some(w), shadow.get(&k), log);
-                        ctx.rep.violation(&sig, &format!("a route the {} rule forbids is in the UPDATE messages ({} sink)", clause, sink), wj);
+                        ctx.rep.violation(
+                            &sig,
+                            &format!(
+                                "a route the {} rule forbids is in the UPDATE messages ({} sink)",
+                                clause, sink
+                            ),
+                            wj,
+                        );
                     }
                     continue;
                 }
@@ -2245,12 +3083,20 @@ fn judge_wire_view(
                 (Expected::Send(e), Some(_)) => e,
             };
             let (nh, attrs) = wire.unwrap();
-            ctx.rep.nontrivial(fnv64(format!("wire|{}|{:?}|{:?}|{:?}", sink, wp.cell, wp.spec, wp.env.stored_nh).as_bytes()));
+            ctx.rep.nontrivial(fnv64(
+                format!(
+                    "wire|{}|{:?}|{:?}|{:?}",
+                    sink, wp.cell, wp.spec, wp.env.stored_nh
+                )
+                .as_bytes(),
+            ));
             if !matches!(e.nexthop, ExpNh::Any) {
                 ctx.rep.count("wire:nexthop-judged");
             }
             for (clause, fact, text) in judge(&wp.cell, &wp.spec, e, *nh, attrs) {
-                let handed_ok = shadow.get(&k).is_some_and(|h| same(h, &(*nh, Arc::clone(attrs))));
+                let handed_ok = shadow
+                    .get(&k)
+                    .is_some_and(|h| same(h, &(*nh, Arc::clone(attrs))));
                 let sig = if handed_ok {
                     // the sink was handed this very value: a rewrite defect, not a grouping one
                     format!("C09/{}/{}/{}", clause, wp.cell.pair(), fact)
@@ -2260,7 +3106,17 @@ fn judge_wire_view(
                     format!("C09/wire-grouping/{}/attrs-of-another-route", sink)
                 };
                 let wj = wire_witness(sink, b, routes, k, wire, shadow.get(&k), log);
-                ctx.rep.violation(&sig, &format!("on the wire ({} sink): {} -> {}: {}", sink, wp.cell.src.name(), role_name(b.dst), text), wj);
+                ctx.rep.violation(
+                    &sig,
+                    &format!(
+                        "on the wire ({} sink): {} -> {}: {}",
+                        sink,
+                        wp.cell.src.name(),
+                        role_name(b.dst),
+                        text
+                    ),
+                    wj,
+                );
             }
         }
     }
@@ -2286,7 +3142,13 @@ fn judge_wire_view(
     let mut by_nh: BTreeMap<String, u32> = BTreeMap::new();
     for (nh, a) in shadow.values() {
         let e = by_nh.entry(format!("{:?}", nh)).or_insert(0);
-        if by_attr.iter().filter(|x| x.1.contains(&format!("{:?}", nh))).count() > 1 && *e == 0 {
+        if by_attr
+            .iter()
+            .filter(|x| x.1.contains(&format!("{:?}", nh)))
+            .count()
+            > 1
+            && *e == 0
+        {
             ctx.rep.count("wire:equal-nexthop-different-attrs");
         }
         *e += 1;
@@ -2303,11 +3165,21 @@ fn run_wire_batch(ctx: &mut Ctx, rng: &mut Rng, use_pending: bool) {
     let mut routes: Vec<WRoute> = Vec::new();
     let mut index: FnvHashMap<packet::Nlri, usize> = FnvHashMap::default();
     for i in 0..n {
-        let npaths = if b.addpath { rng.range(1, 3) as u32 } else { rng.range(1, 2) as u32 };
-        let paths: Vec<WPath> = (0..npaths).map(|k| gen_wpath(rng, &b, &templates, &mut cache, k + 1, &mut ctx.rep)).collect();
+        let npaths = if b.addpath {
+            rng.range(1, 3) as u32
+        } else {
+            rng.range(1, 2) as u32
+        };
+        let paths: Vec<WPath> = (0..npaths)
+            .map(|k| gen_wpath(rng, &b, &templates, &mut cache, k + 1, &mut ctx.rep))
+            .collect();
         let net = wire_net(i);
         index.insert(net.clone(), i);
-        routes.push(WRoute { net, dest_id: 100 + i as u32, paths });
+        routes.push(WRoute {
+            net,
+            dest_id: 100 + i as u32,
+            paths,
+        });
     }
     let recv: IpAddr = WIRE_RECV.parse().unwrap();
     let ctx_local_asn = routes[0].paths[0].env.ctx_local_asn;
@@ -2320,7 +3192,13 @@ fn run_wire_batch(ctx: &mut Ctx, rng: &mut Rng, use_pending: bool) {
     };
     let policy = ctx.pol.v4[b.policy as usize].clone();
     let emax = if b.addpath { 4 } else { 1 };
-    let new_em = || if b.addpath { ExportMap::new([family]) } else { ExportMap::default() };
+    let new_em = || {
+        if b.addpath {
+            ExportMap::new([family])
+        } else {
+            ExportMap::default()
+        }
+    };
     let mut em_real = new_em();
     let mut em_shadow = new_em();
     let mut view: BTreeMap<WireKey, WireVal> = BTreeMap::new();
@@ -2328,9 +3206,18 @@ fn run_wire_batch(ctx: &mut Ctx, rng: &mut Rng, use_pending: bool) {
     let mut processed = vec![false; n];
     let mut log: Vec<String> = Vec::new();
     let mut unknown = 0u64;
-    ctx.rep.count(if use_pending { "wire:pending:batches" } else { "wire:grouped:batches" });
-    ctx.rep.count(&format!("wire:receiver:{}", role_name(b.dst)));
-    ctx.rep.count(if b.addpath { "wire:add-path" } else { "wire:plain" });
+    ctx.rep.count(if use_pending {
+        "wire:pending:batches"
+    } else {
+        "wire:grouped:batches"
+    });
+    ctx.rep
+        .count(&format!("wire:receiver:{}", role_name(b.dst)));
+    ctx.rep.count(if b.addpath {
+        "wire:add-path"
+    } else {
+        "wire:plain"
+    });
 
     let change_of = |r: &WRoute, replaced: Option<u32>| table::NlriChange {
         family,
@@ -2345,9 +3232,33 @@ fn run_wire_batch(ctx: &mut Ctx, rng: &mut Rng, use_pending: bool) {
     macro_rules! feed {
         ($sink:expr, $ri:expr, $replaced:expr) => {{
             let ch = change_of(&routes[$ri], $replaced);
-            process_nlri_change(&ch, emax, recv, &mut em_real, $sink, &export_ctx, policy.as_deref(), b.cl.id(), None, None, None);
+            process_nlri_change(
+                &ch,
+                emax,
+                recv,
+                &mut em_real,
+                $sink,
+                &export_ctx,
+                policy.as_deref(),
+                b.cl.id(),
+                None,
+                None,
+                None,
+            );
             let mut rec = Rec::default();
-            process_nlri_change(&ch, emax, recv, &mut em_shadow, &mut rec, &export_ctx, policy.as_deref(), b.cl.id(), None, None, None);
+            process_nlri_change(
+                &ch,
+                emax,
+                recv,
+                &mut em_shadow,
+                &mut rec,
+                &export_ctx,
+                policy.as_deref(),
+                b.cl.id(),
+                None,
+                None,
+                None,
+            );
             for (_, pid) in rec.unreach {
                 shadow.remove(&($ri, if b.addpath { pid } else { 0 }));
             }
@@ -2365,7 +3276,10 @@ fn run_wire_batch(ctx: &mut Ctx, rng: &mut Rng, use_pending: bool) {
             for ri in 0..n {
                 feed!(&mut sink, ri, None);
             }
-            log.push(format!("initial dump of {} prefixes through GroupedSink", n));
+            log.push(format!(
+                "initial dump of {} prefixes through GroupedSink",
+                n
+            ));
             let msgs = sink.into_messages(family);
             let mut multi = 0;
             for m in &msgs {
@@ -2375,14 +3289,29 @@ fn run_wire_batch(ctx: &mut Ctx, rng: &mut Rng, use_pending: bool) {
                     }
                 }
             }
-            ctx.rep.count_n("wire:messages-with-several-prefixes", multi);
+            ctx.rep
+                .count_n("wire:messages-with-several-prefixes", multi);
             let dups = apply_wire_msgs(&msgs, &index, &mut view, &mut unknown);
             for k in dups {
                 let sig = format!("C09/wire-grouping/{}/prefix-duplicated", sink_name);
-                let w = wire_witness(sink_name, &b, &routes, k, view.get(&k), shadow.get(&k), &log);
-                ctx.rep.violation(&sig, "the same (prefix, path id) is advertised twice in one dump", w);
+                let w = wire_witness(
+                    sink_name,
+                    &b,
+                    &routes,
+                    k,
+                    view.get(&k),
+                    shadow.get(&k),
+                    &log,
+                );
+                ctx.rep.violation(
+                    &sig,
+                    "the same (prefix, path id) is advertised twice in one dump",
+                    w,
+                );
             }
-            judge_wire_view(ctx, sink_name, &b, &routes, &processed, &view, &shadow, &log);
+            judge_wire_view(
+                ctx, sink_name, &b, &routes, &processed, &view, &shadow, &log,
+            );
         } else {
             let mut pending = crate::peer_tx::PendingTx::new(b.addpath);
             // announcements, then replacements and withdrawals, drained at random points
@@ -2402,7 +3331,10 @@ fn run_wire_batch(ctx: &mut Ctx, rng: &mut Rng, use_pending: bool) {
                 }
             }
             // keep per-prefix order (replace before withdraw), shuffle across prefixes
-            let mut keyed: Vec<(u64, (usize, u8))> = later.into_iter().map(|o| (rng.below(1000) * 4 + o.1 as u64, o)).collect();
+            let mut keyed: Vec<(u64, (usize, u8))> = later
+                .into_iter()
+                .map(|o| (rng.below(1000) * 4 + o.1 as u64, o))
+                .collect();
             keyed.sort();
             ops.extend(keyed.into_iter().map(|x| x.1));
             let total = ops.len();
@@ -2442,26 +3374,52 @@ fn run_wire_batch(ctx: &mut Ctx, rng: &mut Rng, use_pending: bool) {
                             }
                         }
                     }
-                    ctx.rep.count_n("wire:messages-with-several-prefixes", multi);
+                    ctx.rep
+                        .count_n("wire:messages-with-several-prefixes", multi);
                     ctx.rep.count("wire:pending:drains");
                     log.push(format!("drain_messages -> {} messages", msgs.len()));
                     let dups = apply_wire_msgs(&msgs, &index, &mut view, &mut unknown);
                     for k in dups {
                         let sig = format!("C09/wire-grouping/{}/prefix-duplicated", sink_name);
-                        let w = wire_witness(sink_name, &b, &routes, k, view.get(&k), shadow.get(&k), &log);
-                        ctx.rep.violation(&sig, "the same (prefix, path id) is advertised twice in one drain", w);
+                        let w = wire_witness(
+                            sink_name,
+                            &b,
+                            &routes,
+                            k,
+                            view.get(&k),
+                            shadow.get(&k),
+                            &log,
+                        );
+                        ctx.rep.violation(
+                            &sig,
+                            "the same (prefix, path id) is advertised twice in one drain",
+                            w,
+                        );
                     }
-                    judge_wire_view(ctx, sink_name, &b, &routes, &processed, &view, &shadow, &log);
+                    judge_wire_view(
+                        ctx, sink_name, &b, &routes, &processed, &view, &shadow, &log,
+                    );
                 }
             }
         }
     });
     if let Err(p) = res {
         let sig = format!("C09/panic/{}:{}", p.location, panic_class(&p.message));
-        ctx.rep.violation(&sig, &format!("wire workload ({}) panicked at {}: {}", sink_name, p.location, p.message), Json::strs(log.clone()));
+        ctx.rep.violation(
+            &sig,
+            &format!(
+                "wire workload ({}) panicked at {}: {}",
+                sink_name, p.location, p.message
+            ),
+            Json::strs(log.clone()),
+        );
     }
     if unknown > 0 {
-        ctx.rep.violation(&format!("C09/wire-grouping/{}/unknown-prefix", sink_name), "an UPDATE carries a prefix that was never handed to the sink", Json::strs(log));
+        ctx.rep.violation(
+            &format!("C09/wire-grouping/{}/unknown-prefix", sink_name),
+            "an UPDATE carries a prefix that was never handed to the sink",
+            Json::strs(log),
+        );
     }
 }
 
@@ -2484,7 +3442,10 @@ fn run() {
     let mut rep = Report::new("C09", &params);
     rep.extra("rule", Json::s(rule));
     rep.max_samples = 6;
-    let mut ctx = Ctx { rep, pol: build_policies() };
+    let mut ctx = Ctx {
+        rep,
+        pol: build_policies(),
+    };
     let mut rng = Rng::new(params.seed ^ 0xC09);
     let nshards = params.get_u64("nshards", 1).max(1);
     let shard = params.seed % 1000;
@@ -2492,7 +3453,10 @@ fn run() {
     if part == "all" || part == "inbound" {
         run_as_loop(&mut ctx);
         run_llgr_history(&mut ctx);
-        match tokio::runtime::Builder::new_current_thread().enable_all().build() {
+        match tokio::runtime::Builder::new_current_thread()
+            .enable_all()
+            .build()
+        {
             Ok(rt) => {
                 let r = guard(|| {
                     rt.block_on(async {
@@ -2502,7 +3466,14 @@ fn run() {
                 });
                 if let Err(p) = r {
                     let sig = format!("C09/panic/{}:{}", p.location, panic_class(&p.message));
-                    ctx.rep.violation(&sig, &format!("inbound / derived workload panicked at {}: {}", p.location, p.message), Json::Null);
+                    ctx.rep.violation(
+                        &sig,
+                        &format!(
+                            "inbound / derived workload panicked at {}: {}",
+                            p.location, p.message
+                        ),
+                        Json::Null,
+                    );
                 }
             }
             Err(e) => ctx.rep.inconclusive(&format!("no tokio runtime: {}", e)),
